@@ -381,7 +381,7 @@ pub fn replay(v: &Value) -> CaseResult {
 
 /// part (f) of C13: untyped histories and reader scripts through the async port, only panics count
 pub fn panic_part(ctx: &RunCtx) -> (Stats, Option<Failure>) {
-    let n = ctx.tier.pick(500, 8000);
+    let n = ctx.tier.pick(500, 20_000);
     let (mut stats, failure) = with_stdout_silenced(|| {
         run_sharded(ctx, "async-panics", n, || strategy(true), |c, st, counting| {
             let mut tmp = Stats::default();
@@ -407,7 +407,7 @@ pub fn run(ctx: &RunCtx) -> i32 {
         return 1;
     }
     let nplans = ctx.tier.pick(3, 8);
-    let n = ctx.tier.pick(800, 10_000);
+    let n = ctx.tier.pick(800, 24_000);
     let (stats, failure) = with_stdout_silenced(|| run_sharded(ctx, "lockstep", n, || strategy(false), |c, st, counting| test(c, st, counting, nplans, false)));
     write_evidence(
         ctx,
